@@ -434,7 +434,9 @@ func (e *Env) versionTables() {
 		}
 		ps := parsersOf(pk.Types, T)
 		if len(ps) != 1 {
-			c.Fail("version-table", who, pos, fmt.Sprintf("expected exactly one func(string) %s, found %d", x.typ, len(ps)))
+			// no separate label parser (its loop is written out inside another function), or several candidates:
+			// which strings map to which version is then not decided here
+			c.Undecided("version-table", who, pos, fmt.Sprintf("expected exactly one func(string) %s to evaluate on the label domain, found %d", x.typ, len(ps)))
 			continue
 		}
 		g := ps[0]
